@@ -1,9 +1,14 @@
 //! Verification shim for the `crc` crate (only inside the scratch copy the checks build).
 //!
-//! Assumed contract of the dependency: `checksum(bytes)` / `digest().update(..)*.finalize()` is a
-//! deterministic function of the concatenated byte sequence.  The real table-driven CRC makes CBMC
-//! spend minutes per dozen symbolic bytes (16 KiB lookup tables with symbolic indices); no contract
-//! in /verif depends on the CRC polynomial, only on "stored value == f(covered bytes)".
+//! Assumed contract of the dependency: `checksum(bytes)` / `digest().update(..)*.finalize()` is a deterministic
+//! function of the concatenated byte sequence, independent of how the sequence is split into `update` calls.
+//! The real table-driven CRC makes CBMC spend minutes per dozen symbolic bytes (16 KiB lookup tables with symbolic
+//! indices); no contract in /verif depends on the CRC polynomial, only on "stored value == f(covered bytes)".
+//!
+//! f folds, in stream order, the bytes at a fixed set of *absolute stream positions* - the first 16 positions and the
+//! three positions around every multiple of 4096 - and finally the total length. That keeps f a function of the byte
+//! sequence (so every proof that uses only determinism stays valid), makes it insensitive to chunking like a real CRC,
+//! and makes `update` loop-free in the slice length so that harnesses can push KiB-sized writes through it.
 #![no_std]
 use core::marker::PhantomData;
 
@@ -23,67 +28,63 @@ pub struct Crc<W, I> {
 #[derive(Clone)]
 pub struct Digest<'a, W, I> {
     _crc: &'a Crc<W, I>,
-    value: W,
+    value: u64,
+    count: u64,
 }
 
-/// Long inputs are folded over a fixed sample of positions plus the length (still a deterministic function of the byte
-/// sequence - the only assumption any contract uses - but loop-free, so harnesses can push KiB-sized writes through).
-const SAMPLE_ABOVE: usize = 16;
-const fn sample_pos(len: usize, k: usize) -> usize {
-    match k {
-        0 => 0,
-        1 => 1,
-        2 => len / 4,
-        3 => len / 2,
-        4 => len / 2 + 1,
-        5 => (len / 4) * 3,
-        6 => len - 2,
-        _ => len - 1,
-    }
-}
-const fn fold32(mut s: u32, bytes: &[u8]) -> u32 {
-    if bytes.len() <= SAMPLE_ABOVE {
-        let mut i = 0;
-        while i < bytes.len() {
-            s = step32(s, bytes[i]);
-            i += 1;
-        }
-    } else {
-        s = step32(s, bytes.len() as u8);
-        s = step32(s, (bytes.len() >> 8) as u8);
-        s = step32(s, (bytes.len() >> 16) as u8);
-        let mut k = 0;
-        while k < 8 {
-            s = step32(s, bytes[sample_pos(bytes.len(), k)]);
-            k += 1;
-        }
-    }
-    s
-}
-const fn fold64(mut s: u64, bytes: &[u8]) -> u64 {
-    if bytes.len() <= SAMPLE_ABOVE {
-        let mut i = 0;
-        while i < bytes.len() {
-            s = step64(s, bytes[i]);
-            i += 1;
-        }
-    } else {
-        s = step64(s, bytes.len() as u8);
-        s = step64(s, (bytes.len() >> 8) as u8);
-        s = step64(s, (bytes.len() >> 16) as u8);
-        let mut k = 0;
-        while k < 8 {
-            s = step64(s, bytes[sample_pos(bytes.len(), k)]);
-            k += 1;
-        }
-    }
-    s
-}
-const fn step32(s: u32, b: u8) -> u32 {
-    (s.rotate_left(7) ^ (b as u32)).wrapping_add(0x9E37_79B9)
-}
-const fn step64(s: u64, b: u8) -> u64 {
+const HEAD: u64 = 16;
+const BLOCK: u64 = 4096;
+
+const fn step(s: u64, b: u8) -> u64 {
     (s.rotate_left(11) ^ (b as u64)).wrapping_add(0x9E37_79B9_7F4A_7C15)
+}
+
+/// fold the sampled positions that fall into [count, count + bytes.len()), in increasing order.
+/// Straight-line code (generated): no loop, so harnesses need no unwinding budget for it.
+const fn fold(mut s: u64, count: u64, bytes: &[u8]) -> u64 {
+    let len = bytes.len() as u64;
+    if len == 0 {
+        return s;
+    }
+    assert!(len <= 3 * BLOCK, "verification shim: update() slices are limited to 12 KiB");
+    let end = count + len;
+    let first = (count / BLOCK) * BLOCK;
+    if 0 >= count && 0 < end { s = step(s, bytes[(0 - count) as usize]); }
+    if 1 >= count && 1 < end { s = step(s, bytes[(1 - count) as usize]); }
+    if 2 >= count && 2 < end { s = step(s, bytes[(2 - count) as usize]); }
+    if 3 >= count && 3 < end { s = step(s, bytes[(3 - count) as usize]); }
+    if 4 >= count && 4 < end { s = step(s, bytes[(4 - count) as usize]); }
+    if 5 >= count && 5 < end { s = step(s, bytes[(5 - count) as usize]); }
+    if 6 >= count && 6 < end { s = step(s, bytes[(6 - count) as usize]); }
+    if 7 >= count && 7 < end { s = step(s, bytes[(7 - count) as usize]); }
+    if 8 >= count && 8 < end { s = step(s, bytes[(8 - count) as usize]); }
+    if 9 >= count && 9 < end { s = step(s, bytes[(9 - count) as usize]); }
+    if 10 >= count && 10 < end { s = step(s, bytes[(10 - count) as usize]); }
+    if 11 >= count && 11 < end { s = step(s, bytes[(11 - count) as usize]); }
+    if 12 >= count && 12 < end { s = step(s, bytes[(12 - count) as usize]); }
+    if 13 >= count && 13 < end { s = step(s, bytes[(13 - count) as usize]); }
+    if 14 >= count && 14 < end { s = step(s, bytes[(14 - count) as usize]); }
+    if 15 >= count && 15 < end { s = step(s, bytes[(15 - count) as usize]); }
+    { let m = first + 0 * BLOCK; if m + 0 >= 1 { let q = m + 0 - 1; if q >= HEAD && q >= count && q < end { s = step(s, bytes[(q - count) as usize]); } } }
+    { let m = first + 0 * BLOCK; if m + 1 >= 1 { let q = m + 1 - 1; if q >= HEAD && q >= count && q < end { s = step(s, bytes[(q - count) as usize]); } } }
+    { let m = first + 0 * BLOCK; if m + 2 >= 1 { let q = m + 2 - 1; if q >= HEAD && q >= count && q < end { s = step(s, bytes[(q - count) as usize]); } } }
+    { let m = first + 1 * BLOCK; if m + 0 >= 1 { let q = m + 0 - 1; if q >= HEAD && q >= count && q < end { s = step(s, bytes[(q - count) as usize]); } } }
+    { let m = first + 1 * BLOCK; if m + 1 >= 1 { let q = m + 1 - 1; if q >= HEAD && q >= count && q < end { s = step(s, bytes[(q - count) as usize]); } } }
+    { let m = first + 1 * BLOCK; if m + 2 >= 1 { let q = m + 2 - 1; if q >= HEAD && q >= count && q < end { s = step(s, bytes[(q - count) as usize]); } } }
+    { let m = first + 2 * BLOCK; if m + 0 >= 1 { let q = m + 0 - 1; if q >= HEAD && q >= count && q < end { s = step(s, bytes[(q - count) as usize]); } } }
+    { let m = first + 2 * BLOCK; if m + 1 >= 1 { let q = m + 1 - 1; if q >= HEAD && q >= count && q < end { s = step(s, bytes[(q - count) as usize]); } } }
+    { let m = first + 2 * BLOCK; if m + 2 >= 1 { let q = m + 2 - 1; if q >= HEAD && q >= count && q < end { s = step(s, bytes[(q - count) as usize]); } } }
+    { let m = first + 3 * BLOCK; if m + 0 >= 1 { let q = m + 0 - 1; if q >= HEAD && q >= count && q < end { s = step(s, bytes[(q - count) as usize]); } } }
+    { let m = first + 3 * BLOCK; if m + 1 >= 1 { let q = m + 1 - 1; if q >= HEAD && q >= count && q < end { s = step(s, bytes[(q - count) as usize]); } } }
+    { let m = first + 3 * BLOCK; if m + 2 >= 1 { let q = m + 2 - 1; if q >= HEAD && q >= count && q < end { s = step(s, bytes[(q - count) as usize]); } } }
+    s
+}
+
+const fn finish(s: u64, count: u64) -> u64 {
+    let s = step(s, count as u8);
+    let s = step(s, (count >> 8) as u8);
+    let s = step(s, (count >> 16) as u8);
+    step(s, (count >> 24) as u8)
 }
 
 impl Crc<u32, Table<16>> {
@@ -91,18 +92,22 @@ impl Crc<u32, Table<16>> {
         Self { init: a.init, _i: PhantomData }
     }
     pub const fn checksum(&self, bytes: &[u8]) -> u32 {
-        fold32(self.init, bytes)
+        let s = fold(self.init as u64, 0, bytes);
+        let f = finish(s, bytes.len() as u64);
+        (f ^ (f >> 32)) as u32
     }
     pub const fn digest(&self) -> Digest<'_, u32, Table<16>> {
-        Digest { _crc: self, value: self.init }
+        Digest { _crc: self, value: self.init as u64, count: 0 }
     }
 }
 impl<'a> Digest<'a, u32, Table<16>> {
     pub fn update(&mut self, bytes: &[u8]) {
-        self.value = fold32(self.value, bytes);
+        self.value = fold(self.value, self.count, bytes);
+        self.count += bytes.len() as u64;
     }
     pub const fn finalize(self) -> u32 {
-        self.value
+        let f = finish(self.value, self.count);
+        (f ^ (f >> 32)) as u32
     }
 }
 
@@ -111,17 +116,18 @@ impl Crc<u64, Table<16>> {
         Self { init: a.init, _i: PhantomData }
     }
     pub const fn checksum(&self, bytes: &[u8]) -> u64 {
-        fold64(self.init, bytes)
+        finish(fold(self.init, 0, bytes), bytes.len() as u64)
     }
     pub const fn digest(&self) -> Digest<'_, u64, Table<16>> {
-        Digest { _crc: self, value: self.init }
+        Digest { _crc: self, value: self.init, count: 0 }
     }
 }
 impl<'a> Digest<'a, u64, Table<16>> {
     pub fn update(&mut self, bytes: &[u8]) {
-        self.value = fold64(self.value, bytes);
+        self.value = fold(self.value, self.count, bytes);
+        self.count += bytes.len() as u64;
     }
     pub const fn finalize(self) -> u64 {
-        self.value
+        finish(self.value, self.count)
     }
 }
